@@ -81,7 +81,7 @@ def run(chk, extra_corpus=None):
         "tainted objects (ValidateRequiredExternalFields; coq/C07/ModelTaint.v): getTaintedIndices / selectObjectAndIndex / filterOutTainted and the taint "
         "bookkeeping of mergeResult, modelled by hand and tied by correspondence (mode taint); Loader.taintedObjs is keyed by pointer, the model by location "
         "in the data tree (aliases of one astjson value share a bucket); FetchInfo.FetchReasons is the parameter coords; decoding of the subgraph's errors "
-        "array by encoding/json (appendSubgraphError) is not modelled: the generated error entries are decodable; the spec clause taint_isolated (coq/C07/SpecTaint.v) "
+        "array by encoding/json (appendSubgraphError) is not modelled: since 9b487a9 an undecodable entry no longer fails the merge (variant objpath); the spec clause taint_isolated (coq/C07/SpecTaint.v) "
         "takes the failed objects of the reference data from the lab (the entities whose representation the scripted subgraph saw at the failed positions, "
         "located by walking the universe along the fetch path) and the dependant / later fetch sets from the driver",
         "C02.Model.resolve is the renderer; c07_valid_json cites C02.Properties.resolve_refines_complete",
